@@ -600,3 +600,12 @@ func Slen(s *T) *T { return app("slen", SInt, s) }
 func Sat(s, i *T) *T {
 	return app("sat", SInt, s, i)
 }
+
+func (c *collector) hasSkolem() bool {
+	for k := range c.syms {
+		if strings.Contains(k, "sk!") {
+			return true
+		}
+	}
+	return false
+}
